@@ -3,15 +3,23 @@
 From Sq Require Export Base.Corr Sched.Model.
 
 (** group gi: pattern lines, [(path, is_dir)] list  |->  per path: the decision for the path on its own
-    (0 none, 1 ignore, 2 whitelist = [Gitignore::matched]) and "ignored, itself or through a parent" *)
+    (0 none, 1 ignore, 2 whitelist = [Gitignore::matched]), "ignored, itself or a parent directory" (gitignore),
+    and the nearest-decision walk ([Gitignore::matched_path_or_any_parents] without its empty-path step) *)
 Definition gi_args : Type := (list str * list (list str * bool))%type.
 Definition dec_code (d : dec) : N := match d with DNone => 0 | DIgnore => 1 | DWhite => 2 end.
-Definition model_gi (a : gi_args) : list (N * bool) :=
+Definition gi_res : Type := (N * bool * bool)%type.
+Definition model_gi (a : gi_args) : list gi_res :=
   let ps := parse_lines (fst a) in
-  map (fun q => (dec_code (decide ps (fst q) (snd q)), gi_ignored ps (fst q) (snd q))) (snd a).
-Definition case_t_gi : Type := (N * gi_args * list (N * bool))%type.
-Definition check_gi (a : gi_args) (exp : list (N * bool)) : bool :=
-  list_eqb (pair_eqb N.eqb Bool.eqb) (model_gi a) exp.
+  map (fun q => (dec_code (decide ps (fst q) (snd q)), gi_ignored ps (fst q) (snd q), gi_nearest ps (fst q) (snd q))) (snd a).
+Definition case_t_gi : Type := (N * gi_args * list gi_res)%type.
+Definition check_gi (a : gi_args) (exp : list gi_res) : bool :=
+  list_eqb (pair_eqb (pair_eqb N.eqb Bool.eqb) Bool.eqb) (model_gi a) exp.
+
+(** group git: the same arguments  |->  what [git check-ignore --no-index] answers for each path *)
+Definition model_git (a : gi_args) : list bool :=
+  let ps := parse_lines (fst a) in map (fun q => gi_ignored ps (fst q) (snd q)) (snd a).
+Definition case_t_git : Type := (N * gi_args * list bool)%type.
+Definition check_git (a : gi_args) (exp : list bool) : bool := list_eqb Bool.eqb (model_git a) exp.
 
 (** group pipe: tree, extension list, ignore-file lines, path arguments
     |->  the multiset of reported files (sorted by spelling, path) and the files rewritten by fix (sorted) *)
